@@ -26,15 +26,21 @@ from harness import _C14_fakefs as ffs
 PROPERTY = 'C14'
 
 # ---------------------------------------------------------------------------------- regions
-# Known-finding regions (switched on by known_findings.json entries; see HARNESS_GUIDE).
+# Known-finding regions (switched on by known_findings.json entries; see HARNESS_GUIDE).  The exact
+# predicates are `_pre_k1`, `in_known_region` and the second half of c14-cr in `_pre_k3`.
 #
-#  c14-splitlines        a str-backed text is divided by str.splitlines, i.e. also after
-#                        VT FF FS GS RS NEL LS PS (and CR), while a file is divided after LF only
-#  c14-cr                a CR in a text: reading a file translates CR / CR LF to LF, a str keeps it;
-#                        file-file `equals` compares bytes
-#  c14-rollover-nonascii SpooledTextFile._rollover positions the new disk file at the CHARACTER
-#                        offset of the memory buffer (newfile.seek(file.tell())), which is a byte
-#                        offset only for ASCII: lines written after the roll-over overwrite the tail
+#  c14-splitlines        a text that is (or may be, once cached in memory) held as a str is divided by
+#                        str.splitlines, i.e. also after VT FF FS GS RS NEL LS PS (and CR), while a file is
+#                        divided after LF only.  Region: the text contains one of these characters and the
+#                        source has a str literal part or a cache.
+#  c14-cr                reading a file translates CR / CR LF to LF, a str keeps the CR; two texts that both
+#                        exist as files are compared by `equals` byte by byte.  Region: a str literal part
+#                        contains CR; or (K3) a file's bytes contain CR and the other side may be on disk.
+#  c14-rollover-nonascii SpooledTextFile._rollover positions the new disk file at the CHARACTER offset of the
+#                        memory buffer (newfile.seek(file.tell())), which is the byte offset only for ASCII:
+#                        what is written after the roll-over overwrites the tail of the file.  Region: the
+#                        text contains a non-ASCII character, the source has a cache and the text is longer
+#                        than the memory buffer.
 
 R_SPLITLINES = 'c14-splitlines'
 R_CR = 'c14-cr'
@@ -336,8 +342,6 @@ def _k2_texts_ok(c, parts) -> bool:
             total += len(p)
     if total > c['maxlen']:
         return False
-    if 'minlen' in c and total < c['minlen']:
-        return False
     for i in range(n):
         if not in_alphabet(parts[i], c['alphabet']):
             return False
@@ -353,12 +357,14 @@ def holds_str(spec) -> bool:
     return 'str' in root_kinds(spec) or spec_has_cache(spec)
 
 
-def in_known_region(spec, parts) -> bool:
+def in_known_region(spec, parts, m: int) -> bool:
     """Is the text of a source inside a known-finding region that is switched on?
 
     c14-cr                 a part that is a str literal contains CR (the str keeps it, a file made from it does not)
     c14-splitlines         the text contains a str.splitlines-only line break and may be held as a str
-    c14-rollover-nonascii  the text contains a non-ASCII character and the source has a cache (SpooledTextFile)
+    c14-rollover-nonascii  the text contains a non-ASCII character, the source has a cache (SpooledTextFile) and
+                           the text is longer than the memory buffer (otherwise nothing ever rolls over with
+                           buffered characters)
     """
     kinds = root_kinds(spec)
     if ob.excluded(R_CR):
@@ -370,14 +376,14 @@ def in_known_region(spec, parts) -> bool:
             if has_split_noncr(parts[i]):
                 return True
     if ob.excluded(R_ROLLOVER) and spec_has_cache(spec):
+        total = 0
         for i in range(len(kinds)):
-            if has_nonascii(parts[i]):
-                return True
+            total += len(parts[i])
+        if m < total:
+            for i in range(len(kinds)):
+                if has_nonascii(parts[i]):
+                    return True
     return False
-
-
-def _excluded_text(c, parts) -> bool:
-    return in_known_region(c['spec'], parts)
 
 
 def _pre_k2(s: str, t: str, u: str, m: int, a0: int, a1: int, a2: int) -> bool:
@@ -394,7 +400,7 @@ def _pre_k2(s: str, t: str, u: str, m: int, a0: int, a1: int, a2: int) -> bool:
                 return False
         elif sel[i] != 0:
             return False
-    return not _excluded_text(c, (s, t, u))
+    return not in_known_region(c['spec'], (s, t, u), m)
 
 
 def k2_access(s: str, t: str, u: str, m: int, a0: int, a1: int, a2: int) -> bool:
@@ -459,7 +465,7 @@ def _pre_k3(e: str, a: str, m: int) -> bool:
         return False
     if not in_alphabet(e, c['alphabet']) or not in_alphabet(a, c['alphabet']):
         return False
-    if in_known_region(c['espec'], (e,)) or in_known_region(c['aspec'], (a,)):
+    if in_known_region(c['espec'], (e,), m) or in_known_region(c['aspec'], (a,), m):
         return False
     if ob.excluded(R_CR):
         # c14-cr, second half: two texts that both exist as files are compared by their BYTES
@@ -561,7 +567,7 @@ def _pre_k4(s: str, e: str, k: int, m: int) -> bool:
         return False
     if not in_alphabet(s, c['alphabet']) or not in_alphabet(e, c['alphabet']):
         return False
-    if in_known_region(c['spec'], (s,) * n_parts(c['spec'])) or in_known_region(('str',), (e,)):
+    if in_known_region(c['spec'], (s,) * n_parts(c['spec']), m) or in_known_region(('str',), (e,), m):
         return False
     return True
 
@@ -615,7 +621,6 @@ def _alpha_name(alphabet: str) -> str:
     return '{' + ','.join(names[c] for c in alphabet) + '}'
 
 
-ALPHA_FULL = 'a\n\r\x0cé'
 ALPHA_PLAIN = 'a\n'
 
 
@@ -949,11 +954,22 @@ def selftest(tier) -> int:
 ASSUMPTIONS = [
     'text files are replaced by a pure-Python stand-in with the documented contract of a POSIX text-mode file '
     '(UTF-8 bytes, universal-newline translation on input, byte-offset seek); io.StringIO(newline="\\n"), '
-    'os.fstat().st_size and filecmp.cmp(shallow=False) likewise; all are compared with the real thing on concrete '
-    'data by the self-test',
+    'os.fstat().st_size and filecmp.cmp(shallow=False) likewise; each stand-in is compared with the real thing, and '
+    'the real exactly_lib classes on real temporary files are compared with the same classes on the stand-ins, on '
+    'concrete data by the self-test (including texts inside the known-finding regions)',
+    'a program whose output is captured (layer "fdwriter") is modelled as: fileno() is requested from the output file '
+    'and the bytes of the text are appended behind that descriptor',
+    'the transformers of a chain are `identity`, `filter constant true`, `filter ! constant false`, '
+    '`identity | filter constant true | identity` (parsed by the real parser) and a writer that copies its model: '
+    'they stand for "any transformation" only as far as the caching / spooling layer is concerned; what a '
+    'transformer does to the text is C05 / C13',
 ]
 
 OUTSIDE = [
     'real files, real program output, encodings other than UTF-8, Windows newline handling',
     'texts longer than the stated bounds (the loops are linear in the text; no induction over the length)',
+    'characters other than the stated alphabets in K2-K4 (K1 is over all of Unicode); non-ASCII characters other '
+    'than the two-byte e-acute',
+    'access orders other than the listed concrete sequences and (thorough) all orders of three accesses',
+    'memory buffer size 0',
 ]
